@@ -18,7 +18,9 @@ RULE = ("A source tree (float with unit, int, bool, str, float array, a nested n
         "the host unit stated or not, slices on arrays and strings, imports {?p.*}, {?p}, {?*} below groups, and at "
         "most one terminal probe (injection selecting none / several, import selecting nothing, modification refused "
         "by an imported constraint, an option added to an imported copy: accepted there, still refused by the original); "
-        "a computed boolean source (src.cmp = comparison of src.cnt); imports of hosts that were themselves created by "
+        "a computed boolean source (src.cmp = comparison of src.cnt), a source that is itself an injection host (src.ref), one "
+        "declared in the group and assigned after it (src.late), a 2x3 matrix with two-axis slices; imports onto an "
+        "existing node of another unit; imports of hosts that were themselves created by "
         "(sliced) injections. Oracle: a model environment replayed in text order (injected value = current "
         "value of the source, slice applied; unit rule as stated; then conversion into the host's definition unit; "
         "imports copy value, type, unit and constraints). The base environment's data(TUPLE) and unit list must be "
@@ -50,14 +52,16 @@ def source_tree(draw):
         "cmp_op": draw(st.sampled_from(["<=", ">=", "<", "=="])),     # src.cmp bool = ("{?src.cnt} <op> 20"): a computed boolean
         "name": draw(st.sampled_from(WORDS)),
         "arr": [[draw(st.sampled_from([34.0, 23.34, 1.0, 0.25, 100.0])) for _ in range(3)], draw(st.sampled_from(LEN))],
+        "late": [draw(st.sampled_from([40.0, 2.5, 0.0])), draw(st.sampled_from(LEN))],   # declared in src, assigned after the group
         "deep": draw(st.integers(1, 3)),
         "deep_con": draw(st.sampled_from([None, None, "constant", "options"])),
     }
 
 
-KEYS = ["src.len", "src.cnt", "src.flag", "src.cmp", "src.name", "src.arr", "src.sub.deep"]
+KEYS = ["src.len", "src.cnt", "src.flag", "src.cmp", "src.name", "src.arr", "src.sub.deep", "src.ref", "src.late", "src.mat"]
 TYPE = {"src.len": "float", "src.cnt": "int", "src.flag": "bool", "src.cmp": "bool", "src.name": "str", "src.arr": "float[3]",
-        "src.sub.deep": "int"}
+        "src.sub.deep": "int", "src.ref": "float", "src.late": "float", "src.mat": "float[2,3]"}
+MAT = [[1.0, 2.0, 3.0], [4.0, 5.0, 6.0]]
 
 
 def cmp_value(t):
@@ -68,7 +72,7 @@ def cmp_value(t):
 @st.composite
 def operation(draw, where):
     kinds = ["inject_def"] * 5 + ["inject_mod"] * 2 + ["import_children", "import_children", "import_single", "import_all",
-                                                       "import_host", "import_host"]
+                                                       "import_host", "import_host", "import_over"]
     if where != "remote":
         kinds += ["mod_src"] * 6
     k = draw(st.sampled_from(kinds))
@@ -85,6 +89,8 @@ def operation(draw, where):
         sl = None
         if key == "src.arr":
             sl = draw(st.sampled_from([None, "1", "0", "1:", ":2", "0:2"]))
+        elif key == "src.mat":
+            sl = draw(st.sampled_from([None, ":,1", "1,0:2", "0,2", "1", "0:1,1:"]))
         elif key == "src.name":
             sl = draw(st.sampled_from([None, None, "2:", ":3", "1:4", "0"]))
         return ["inject_def", key, unit, sl]
@@ -97,6 +103,9 @@ def operation(draw, where):
         return ["import_single", draw(st.sampled_from(KEYS))]
     if k == "import_host":
         return ["import_host", draw(st.integers(0, 6))]     # the i-th host defined so far (modulo), created by an injection
+    if k == "import_over":
+        # the importing group already holds a node of that name (another unit): the import acts as a modification
+        return ["import_over", draw(st.sampled_from(["src.len", "src.late", "src.cnt", "src.ref"])), draw(st.sampled_from(LEN))]
     return ["import_all"]
 
 
@@ -133,6 +142,9 @@ def source_text(t):
          f"  cmp bool = (\"{{?src.cnt}} {t.get('cmp_op', '<=')} 20\")",
          f"  name str = {lit(t['name'])}",
          f"  arr float[3] = {lit(t['arr'][0])} {t['arr'][1]}",
+         "  ref float = {?src.len}",
+         f"  late float {t.get('late', [40.0, 'cm'])[1]}",
+         "  mat float[2,3] = [[1.0,2.0,3.0],[4.0,5.0,6.0]]",
          "  sub",
          f"    deep int = {t['deep']}"]
     if t["deep_con"] == "constant":
@@ -141,16 +153,28 @@ def source_text(t):
         L += ["      = 1", "      = 2", "      = 3"]
     # neighbours whose names merely start with a queried path: a wildcard must not pick them up
     L += ["  subx", "    other int = 5", "srcx", "  top int = 6"]
+    late = t.get("late", [40.0, "cm"])
+    L += [f"src.late = {lit(late[0])} {late[1]}"]
     return "\n".join(L)
 
 
 def _slice_py(val, sl):
     if sl is None:
         return val
+    if "," in sl:
+        first, second = sl.split(",", 1)
+        rows = _slice_py(val, first)
+        if ":" in first:
+            return [_slice_py(r, second) for r in rows]
+        return _slice_py(rows, second)
     if ":" in sl:
         a, b = sl.split(":")
         return val[(int(a) if a else None):(int(b) if b else None)]
     return val[int(sl)]
+
+
+def _copy(v):
+    return [_copy(x) for x in v] if isinstance(v, list) else v
 
 
 class Model:
@@ -164,6 +188,10 @@ class Model:
         self.add("src.cmp", "bool", None, cmp_value(t))
         self.add("src.name", "str", None, t["name"])
         self.add("src.arr", "float[3]", t["arr"][1], list(t["arr"][0]))
+        self.add("src.ref", "float", t["len"][1], t["len"][0])
+        late = t.get("late", [40.0, "cm"])
+        self.add("src.late", "float", late[1], late[0])
+        self.add("src.mat", "float[2,3]", None, [list(r) for r in MAT])
         self.add("src.sub.deep", "int", None, t["deep"], t["deep_con"])
         self.add("src.subx.other", "int", None, 5)
         self.add("srcx.top", "int", None, 6)
@@ -184,7 +212,8 @@ def build(case):
     model = Model(tree)
     src_model = Model(tree)          # what references resolve against (remote: frozen file content)
     L = []
-    info = {"after_mod": False, "unit_change": False, "slice": False, "import_con": False, "import_of_sliced_host": False}
+    info = {"after_mod": False, "unit_change": False, "slice": False, "import_con": False, "import_of_sliced_host": False,
+            "import_over_existing": False}
     pre = "s" if where == "remote" else ""
     modified = set()
     hosts = {}                        # kind -> host path (for inject_mod)
@@ -219,12 +248,17 @@ def build(case):
                 continue
             typ = s["type"].split("[")[0]
             if isinstance(val, list):
-                typ += f"[{len(val)}]"
+                if val and isinstance(val[0], list):
+                    if not val[0]:
+                        continue
+                    typ += f"[{len(val)},{len(val[0])}]"
+                else:
+                    typ += f"[{len(val)}]"
             hp = f"h{next(n)}"
             ref = "{" + pre + "?" + key + "}" + (f"[{sl}]" if sl else "")
             L.append(f"{hp} {typ} = {ref}" + (f" {unit}" if unit else ""))
             hunit = unit or s["unit"]
-            final.add(hp, typ, hunit, list(val) if isinstance(val, list) else val)
+            final.add(hp, typ, hunit, _copy(val))
             all_hosts.append((hp, bool(sl)))
             kind = TYPE[key] if sl is None else None
             if kind and "[" not in kind:
@@ -250,6 +284,19 @@ def build(case):
                 info["after_mod"] = True
             if unit and unit != h["unit"]:
                 info["unit_change"] = True
+        elif k == "import_over":
+            _k, key, hunit = op
+            sn = resolve.nodes[key]
+            g = f"ov{next(n)}"
+            leaf = key.split(".")[-1]
+            hunit = hunit if sn["unit"] else None
+            L.append(g)
+            L.append(f"  {leaf} {sn['type']} = 7" + (f" {hunit}" if hunit else ""))
+            L.append(f"{g} " + "{" + pre + "?" + key + "}")
+            final.add(f"{g}.{leaf}", sn["type"], hunit, conv(sn["value"], sn["unit"], hunit))
+            info["import_over_existing"] = True
+            if key in modified:
+                info["after_mod"] = True
         elif k == "import_host":
             if not all_hosts:
                 continue
@@ -257,7 +304,7 @@ def build(case):
             g = f"bag{next(n)}"
             L.append(f"{g} {{?{hp}}}")
             hn = final.nodes[hp]
-            final.add(f"{g}.{hp}", hn["type"], hn["unit"], list(hn["value"]) if isinstance(hn["value"], list) else hn["value"])
+            final.add(f"{g}.{hp}", hn["type"], hn["unit"], _copy(hn["value"]))
             if sliced:
                 info["import_of_sliced_host"] = True
         elif k in ("import_children", "import_single", "import_all"):
@@ -277,8 +324,7 @@ def build(case):
                     info["import_of_sliced_host"] = True
             for p, rel in sel:
                 sn = resolve.nodes[p]
-                final.add(f"{g}.{rel}", sn["type"], sn["unit"], list(sn["value"]) if isinstance(sn["value"], list) else sn["value"],
-                          sn["con"])
+                final.add(f"{g}.{rel}", sn["type"], sn["unit"], _copy(sn["value"]), sn["con"])
                 if sn["con"]:
                     info["import_con"] = True
     expects_raise = False
@@ -337,6 +383,12 @@ def check(case):
         if not R.tables_pristine():
             R.restore_tables()
     return v
+
+
+def _same_list(got, exp):
+    if isinstance(exp, list):
+        return isinstance(got, list) and len(got) == len(exp) and all(_same_list(a, b) for a, b in zip(got, exp))
+    return not isinstance(got, (list, bool, str)) and got is not None and close(got, exp, 1e-9, 1e-300)
 
 
 def _snapshot(env):
@@ -407,7 +459,7 @@ def _check(case, v, tmp):
                 return v.fail("unit", f"{pth}: unit {gu!r}, expected {m['unit']!r} for:\n{text}")
             exp = m["value"]
             if isinstance(exp, list):
-                ok = isinstance(got, list) and len(got) == len(exp) and all(close(a, b, 1e-9, 1e-300) for a, b in zip(got, exp))
+                ok = _same_list(got, exp)
             elif isinstance(exp, bool) or isinstance(exp, str) or exp is None:
                 ok = D.values_equal(got, exp)
             else:
